@@ -615,3 +615,15 @@ v("c16-float-from-int-unchecked", "C16", "FLOAT-EXACT", T + "scalars.py",
   "    if int(num) != value:\n", "    if False:\n")
 v("c16-float-from-int-compare-other-way", "C16", "FLOAT-EXACT", T + "scalars.py",
   "    if int(num) != value:\n", "    if value != int(num):\n", expect="silent")
+
+# -- round 4: C20 ------------------------------------------------------------------------------------------
+v("c20-reserved-name-exempts-by-name", "C20", "RESERVED-NAME", T + "validate.py",
+  "            if name.startswith(\"__\"):\n", "            if name.startswith(\"__\") and name not in (\"__Type\", \"__Field\"):\n")
+v("c20-reserved-name-test-in-local", "C20", "RESERVED-NAME", T + "validate.py",
+  "            if name.startswith(\"__\"):\n", "            if name.startswith(\"__\") and True:\n", expect="silent")
+v("c20-cycle-detector-lists-only", "C20", "LIST-VALUE-PREDICATE", T + "validate.py",
+  "        if is_iterable(default_value):\n", "        if isinstance(default_value, list):\n")
+v("c20-oneof-default-test-coerces", "C20", "SCHEMA-VALIDATION-TOTAL", T + "validate.py",
+  "        if field.default is not None or field.default_value is not Undefined:\n", "        if coerce_default_value(field) is not Undefined:\n",
+  extra_edits=[{"file": T + "validate.py", "old": "from ..utilities.type_comparators import is_equal_type, is_type_sub_type_of\n",
+                "new": "from ..utilities.coerce_input_value import coerce_default_value\nfrom ..utilities.type_comparators import is_equal_type, is_type_sub_type_of\n"}])
